@@ -139,7 +139,7 @@ func TestVerifC05E2E(t *testing.T) {
 	n := vfN(60)
 	var w *vfC05World
 	var id *indexData
-	checked, skipped, nonempty := 0, 0, 0
+	checked, skipped, nonempty, nonfinite := 0, 0, 0, 0
 	for i := 0; i < n; i++ {
 		if w == nil || i%2 == 0 {
 			w = vfC05GenE2EWorld(r)
@@ -165,6 +165,9 @@ func TestVerifC05E2E(t *testing.T) {
 		if want != "" {
 			nonempty++
 		}
+		if bc := vfC05BoostClass(q); bc == "boost=nan" || bc == "boost=inf" {
+			nonfinite++
+		}
 		if got == want {
 			continue
 		}
@@ -185,5 +188,6 @@ func TestVerifC05E2E(t *testing.T) {
 			map[string]any{"query": small.String(), "query_coq": vfC05Coq(small), "engine_selects": g, "reference_selects": vfC05RefSelect(w, small),
 				"simplified": id.simplify(small).String(), "world": vfC05WorldJSON(w), "original_query": q.String(), "seed": vfSeed(), "n": n, "iteration": i})
 	}
-	vfInfo(map[string]any{"e2e_queries_checked": checked, "e2e_skipped_symbol": skipped, "e2e_reference_selects_some_document": nonempty})
+	vfInfo(map[string]any{"e2e_queries_checked": checked, "e2e_skipped_symbol": skipped, "e2e_reference_selects_some_document": nonempty,
+		"e2e_queries_with_nan_or_inf_boost": nonfinite})
 }
